@@ -178,7 +178,7 @@ class LoopCtx:
 
 
 class Interp:
-    def __init__(self, repo, cls=None, sigma=None, attrs=None, heap=None, domains=(), io=None, hooks=None):
+    def __init__(self, repo, cls=None, sigma=None, attrs=None, heap=None, domains=(), io=None, hooks=None, join_atoms=False):
         self.repo = repo
         self.cls = cls
         self.sigma = dict(sigma or {})
@@ -195,6 +195,8 @@ class Interp:
         self.cmp_info = {}
         self.warnings = []
         self.assign_ctx = {}
+        self.join_atoms = join_atoms
+        self._last_atom = None
 
     # ------------------------------------------------------------------ events
     def emit(self, kind, node, st, **d):
@@ -344,11 +346,33 @@ class Interp:
         return st
 
     def st_Import(self, s, st):
+        for a in s.names:
+            nm = a.asname or a.name.split(".")[0]
+            m2 = self.repo.by_dotted.get(a.name)
+            st.env[nm] = Val("module", extra=m2, cfg=True) if m2 is not None else Val("ext", extra=a.name if a.asname else a.name.split(".")[0], cfg=True)
         return st
 
-    st_ImportFrom = st_Import
-    st_Global = st_Import
-    st_Nonlocal = st_Import
+    def st_ImportFrom(self, s, st):
+        m2 = self.repo.by_dotted.get(s.module or "")
+        for a in s.names:
+            nm = a.asname or a.name
+            if m2 is not None:
+                if a.name in m2.classes:
+                    st.env[nm] = Val("class", extra=m2.classes[a.name], cfg=True)
+                elif a.name in m2.functions:
+                    st.env[nm] = Val("func", extra=m2.functions[a.name], cfg=True)
+                elif a.name in m2.global_assigns:
+                    st.env[nm] = self.module_const(m2, a.name, st)
+                else:
+                    st.env[nm] = Val("unknown", cfg=True)
+            else:
+                st.env[nm] = Val("ext", extra="%s:%s" % (s.module, a.name), cfg=True)
+        return st
+
+    def st_Global(self, s, st):
+        return st
+
+    st_Nonlocal = st_Global
 
     def st_Assert(self, s, st):
         self.eval(s.test, st)
@@ -646,6 +670,9 @@ class Interp:
             return self.exec_block(s.orelse, st)
         # input-valued (or unknown) test: explore both arms, join
         ptxt = self.pred_text(s.test, st)
+        if self.join_atoms and self._last_atom is not None and tv.cfg:
+            ptxt = "cfg:" + self._last_atom
+            self._last_atom = None
         self.emit("test", s, st, pred=ptxt, dep=tv.dep, val=tv)
         outer_ctrl, outer_preds = st.ctrl, st.preds
         st_t = st.fork()
@@ -696,8 +723,14 @@ class Interp:
             cmp = v.extra if (isinstance(v.extra, tuple) and len(v.extra) == 4 and v.extra[0] == "cmp") else None
             if cmp:
                 self.cmp_info[key] = cmp[1:]
+            if self.join_atoms and key not in self.sigma:
+                # join mode: configuration atoms are explored like input-valued
+                # tests (both arms, merged), the guard is recorded on the events
+                self._last_atom = ("not (%s)" % key) if neg else key
+                return None
             r = self.ask(key, cmp[1:] if cmp else None)
             return (not r) if neg else r
+        self._last_atom = None
         return None
 
     def st_For(self, s, st):
@@ -1773,6 +1806,7 @@ class Run:
         self.result = result
         self.warnings = interp.warnings
         self.cmp_info = dict(interp.cmp_info)
+        self.join_mode = False
 
     def compatible(self, other_sigma):
         for k, v in self.sigma.items():
@@ -1784,8 +1818,23 @@ class Run:
         return [e for e in self.events if e.kind == kind]
 
 
-def enumerate_runs(repo, cls, func, make_interp, bind=None, max_runs=MAX_RUNS):
-    """Run ``func`` under every reachable valuation of its configuration atoms."""
+def enumerate_runs(repo, cls, func, make_interp, bind=None, max_runs=MAX_RUNS, join_fallback=None):
+    """Run ``func`` under every reachable valuation of its configuration atoms.
+    With ``join_fallback`` (a factory of join-mode interpreters) a method with
+    too many independent atoms is analysed once with guarded events instead."""
+    try:
+        return _enumerate_runs(repo, cls, func, make_interp, bind, max_runs if join_fallback is None else min(max_runs, 96))
+    except AnalysisError:
+        if join_fallback is None:
+            raise
+    it = join_fallback({})
+    res = it.run_entry(func, bind)
+    r = Run(func, {}, it, res)
+    r.join_mode = True
+    return [r]
+
+
+def _enumerate_runs(repo, cls, func, make_interp, bind=None, max_runs=MAX_RUNS):
     work = [{}]
     runs = []
     cmp_info = {}
